@@ -1,5 +1,5 @@
-(* map/PamThm.v - theorems about the permutation-aware forward pass (map/Pam.v).
-   PARTIAL: bookkeeping only.  Proved for every sequence of enabled steps:
+(* map/PamThm.v - theorems about the permutation-aware forward pass (map/Pam.v): bookkeeping.
+   Proved for every sequence of enabled steps:
      - pi stays a permutation (also through _apply_perm of the chosen pre / post);
      - the front-set bookkeeping is the SABRE one, so at termination every block
        and barrier has been executed exactly once;
@@ -7,9 +7,10 @@
      - every block in the output is an ADMISSIBLE triple for the coupling graph
        induced on the physical qudits it was looked up with, accepted by _can_exe;
        every swap is on an edge.
-   NOT proved: that the output has the unitary of the input (this needs the
-   contract  circ = Po^T . U . Pi  of the pre-synthesised triples, which is the
-   numerical-synthesis oracle of C03/C10) - see C09_pam_full in props/C09.v. *)
+   The semantic clause (same unitary, under the contract  circ = Po^T . U . Pi  of the
+   pre-synthesised triples, which itself is the numerical-synthesis oracle of C03/C10) is
+   proved in map/PamSem.v; the definitions it speaks about (fmove, blk, prodP, ptail) are
+   at the end of this file. *)
 From Coq Require Import List Arith Bool PeanoNat Lia Permutation.
 Import ListNotations.
 From BQ Require Import lib.Perm lib.PermThm map.Graph map.Sabre map.SabreDag map.SabreThm map.Placement
@@ -282,7 +283,7 @@ Proof. intros Hwfc Hl. unfold pam_layout_pass.
   assert (Hw : wfperm nq p) by (eapply pam_layout_loop_wf; [exact Hwfc|apply wfperm_idperm|eauto]).
   split; auto. rewrite (apply_perm_full nq p pl Hw Hl) in Ep. inversion Ep; auto. Qed.
 
-(* ---- semantic reading of a PAM output (definitions only; used by the unproved full statement) ---- *)
+(* ---- semantic reading of a PAM output (definitions; theorems in map/PamSem.v) ---------------- *)
 (* the wire map of "move wire L[j] to wire L[r[j]]" (identity outside L) *)
 Definition fmove (L r : list nat) (x : nat) : nat :=
   match Perm.index_of x L with Some j => nth (nth j r 0) L 0 | None => x end.
